@@ -11,7 +11,7 @@ RULE = ('A real BP agent with one transmit route whose MTU is drawn relative to 
         'size, header+{1,2,3,12,23,24,25,255,256,257}, 64..70000) sends a bundle that is either originated locally '
         '(Agent.send_bundle on a container built field by field) or received and forwarded.  Payload lengths sit on '
         'the CBOR head boundaries 23/24, 255/256, 65535/65536 +-1 (and random), CRC type per block, 0-3 extension blocks '
-        'with and without the replicate flag (alone or next to other block processing flags), flags NO_FRAGMENT / already-a-fragment on or off, optionally a BIB or BCB policy over the payload at the fragmenting node (the security block is added before the fragmentation step).  A grid payload length x '
+        'with and without the replicate flag (alone or next to other block processing flags), flags NO_FRAGMENT / already-a-fragment on or off, plain payloads or administrative records (object form), optionally a BIB or BCB policy over the payload at the fragmenting node (the security block is added before the fragmentation step).  A grid payload length x '
         'MTU offset x CRC x replicate is enumerated.  Oracle on the byte strings handed to the convergence layer, parsed '
         'independently: if the bundle may and must be fragmented and a fragment with one payload octet fits (feasible, '
         'computed with the independent encoder): every string <= MTU, fragments carry identity + fragment flag + own '
@@ -64,7 +64,10 @@ def cases(draw):
             'flags': draw(strat.flag_sets(strat.REPORT_FLAGS)),
             # a security policy at this node: the integrity / confidentiality block over the payload is added by the
             # transmit chain before the fragmentation step
-            'policy': draw(st.sampled_from([None, None, None, 'bib', 'bcb']))}
+            'policy': draw(st.sampled_from([None, None, None, 'bib', 'bcb'])),
+            # the payload is an administrative record (a status report about a subject with a long name), handed over as
+            # payload object when originated and decoded into one when received
+            'admin': draw(st.sampled_from([False, False, False, True]))}
 
 
 def strategy(tier):
@@ -74,6 +77,8 @@ def strategy(tier):
 def enumerate_cases(tier):
     for case in _policy_cases(tier):
         yield case
+    for case in _admin_cases(tier):
+        yield case
     lengths = [24, 256, 1000] if tier == 'quick' else [1, 23, 24, 255, 256, 1000, 65535, 65536]
     offsets = [-1, 0, 1, 2, 3, 12, 24, 256] if tier == 'quick' else [-5, -1, 0, 1, 2, 3, 12, 23, 24, 25, 255, 256, 257, 1000]
     for mode, plen, off, crc, repl in itertools.product(('originate', 'forward'), lengths, offsets, (0, 1, 2), (False, True)):
@@ -82,6 +87,13 @@ def enumerate_cases(tier):
                        {'repl': not repl, 'crc': 0, 'kind': 'hop', 'dlen': 0, 'xflags': 0x10 if crc == 2 else 0}],
                'no_fragment': False, 'is_fragment': False, 'mtu_kind': 'header', 'mtu_off': off, 'mtu_abs': 0,
                'src': ['dtn', '//src/'], 'dest': ['dtn', '//far/away'], 'ts': [1000, 1], 'flags': 0}
+
+
+def _admin_cases(tier):
+    for mode, plen, off in itertools.product(('originate', 'forward'), (120, 300), (1, 24, 60)):
+        yield {'mode': mode, 'plen': plen, 'pseed': 1, 'pcrc': 1, 'ycrc': 1, 'ext': [], 'no_fragment': False, 'is_fragment': False,
+               'mtu_kind': 'header', 'mtu_off': off, 'mtu_abs': 0, 'src': ['dtn', '//src/'], 'dest': ['dtn', '//far/away'],
+               'ts': [1000, 1], 'flags': 0, 'policy': None, 'admin': True}
 
 
 def _policy_cases(tier):
@@ -120,7 +132,14 @@ def build(case):
         else:
             tcode, data = 192 + idx, strat9174.content(ext['dlen'], idx).hex()
         blocks.append(dict(type=tcode, num=2 + idx, flags=(1 if ext['repl'] else 0) | int(ext.get('xflags', 0)), crc_type=ext['crc'], data=data))
-    blocks.append(dict(type=1, num=1, flags=0, crc_type=case['ycrc'], data=strat9174.content(case['plen'], case['pseed']).hex()))
+    if case.get('admin'):
+        flags |= r.FLAG_ADMIN
+        flags &= ~(r.FLAG_RPT_RECEPTION | r.FLAG_RPT_FORWARD | r.FLAG_RPT_DELIVERY | r.FLAG_RPT_DELETION)
+        name = 's' * max(1, min(int(case['plen']), 3000) - 30)
+        pdata = r.status_report([[True, 5], [False], [True, 0], [False]], 3, ['dtn', '//%s/x' % name], [1000, int(case['pseed'])])
+    else:
+        pdata = strat9174.content(case['plen'], case['pseed']).hex()
+    blocks.append(dict(type=1, num=1, flags=0, crc_type=case['ycrc'], data=pdata))
     src = case['src'] if r.eid_text(case['src']) != NODE else ['dtn', '//src/']
     pri = dict(version=7, flags=flags, crc_type=case['pcrc'], dest=case['dest'], src=src, rpt=['dtn', 'none'],
                ts=[int(case['ts'][0]), int(case['ts'][1])], lifetime=3600000, frag=frag)
@@ -146,7 +165,7 @@ def execute(case):
     bw.reset()
     bundle = build(case)
     wire = r.encode(bundle)
-    total = case['plen']
+    total = len(bundle['blocks'][-1]['data']) // 2
     mode = case['mode']
     policy = case.get('policy')
     plain_bundle = bundle
@@ -164,7 +183,7 @@ def execute(case):
     node = make_node()
     # what the bundle looks like when it reaches the fragmentation step
     if mode == 'forward' or policy:
-        err = node.receive(wire) if mode == 'forward' else node.send(BundleContainer(bpconv.to_repo(bundle)))
+        err = node.receive(wire) if mode == 'forward' else node.send(BundleContainer(bpconv.to_repo(bundle, objform=bool(case.get('admin')))))
         if err is not None:
             out.fail('receive-raises' if mode == 'forward' else 'probe-send-raises', 'the unfragmented probe run raised %s' % err)
             return out
@@ -207,7 +226,7 @@ def execute(case):
     if mode == 'forward':
         err = node.receive(wire)
     else:
-        err = node.send(BundleContainer(bpconv.to_repo(plain_bundle)))
+        err = node.send(BundleContainer(bpconv.to_repo(plain_bundle, objform=bool(case.get('admin')))))
     emitted = []
     for data in node.sent():
         try:
@@ -215,7 +234,7 @@ def execute(case):
         except r.RefError as exc:
             out.fail('emitted-not-wellformed', 'octets handed to the CL are not an RFC 9171 bundle: %s (mtu %s, mode %s)' % (exc, mtu, mode))
             continue
-        if dec['primary']['flags'] & r.FLAG_ADMIN:
+        if dec['primary']['flags'] & r.FLAG_ADMIN and not case.get('admin'):
             continue
         emitted.append((data, dec))
     for esc in node.escapes():
@@ -225,6 +244,8 @@ def execute(case):
     needs = mtu is not None and unfrag_size > mtu
     where = 'mode %s payload %d mtu %s unfragmented %d header %d/%d' % (mode, total, mtu, unfrag_size, head_first, head_later)
     out.label('mode:' + mode, 'mtu:' + kind)
+    if case.get('admin'):
+        out.label('admin-record-payload')
     if not (may_fragment and needs):
         out.label('no-fragmentation-expected')
         if len(emitted) != 1:
